@@ -260,6 +260,15 @@ def check_property(prop, tier, seed, replay=None):
             for c in cases:
                 c.setdefault("meta", {})
             streams = [("replay", cases)]
+            if payload.get("purity") and cases:
+                # the last case in this history against the same case evaluated on its own
+                seq = C.run_harness([strip_meta(c) for c in cases])
+                alone = C.run_harness([strip_meta(cases[-1])])
+                a, b = seq[-1].get("r"), alone[0].get("r")
+                print("REPLAY purity: in history %s / alone %s" % (a, b))
+                if isinstance(a, list) and isinstance(b, list) and [C.canon(x) for x in a] != [C.canon(x) for x in b]:
+                    print("VIOLATION property=%s replay=%s" % (pid, replay))
+                    sys.exit(1)
         else:
             streams = [("corpus", prop.corpus_cases()), ("gen", prop.cases(rng, tier))]
         for tag, cases in streams:
@@ -289,6 +298,35 @@ def check_property(prop, tier, seed, replay=None):
                 for c, h, m in zip(cases, res["hres"], res["mres"]):
                     print("REPLAY case=%s\n  implementation=%s\n  model=%s\n  oracle=%s" % (
                         json.dumps(strip_meta(c))[:600], h.get("r"), m, prop.oracle(c, h)))
+    # ---- hidden state: every operation is a function of its input, so evaluating a sample of the cases again, in REVERSE
+    # order and in one fresh process, must reproduce the first results bit for bit
+    purity_hits = []
+    if hb_ok and not replay:
+        pool = [(c, h) for cases, hrs in ran for c, h in zip(cases, hrs)
+                if isinstance(h.get("r"), list) and c.get("meta", {}).get("class") != "poison" and not c.get("prefail")]
+        if pool:
+            lim = 80 if tier == "quick" else 600
+            if len(pool) > lim:
+                step = len(pool) / float(lim)
+                pool = [pool[int(k * step)] for k in range(lim)]
+            pool = pool[::-1]
+            try:
+                again = C.run_harness([strip_meta(c) for c, _ in pool])
+                for k, ((c, h), h2) in enumerate(zip(pool, again)):
+                    if isinstance(h2.get("r"), list) and [C.canon(x) for x in h2["r"]] != [C.canon(x) for x in h["r"]]:
+                        purity_hits.append((k, c, h, h2))
+                stats["purity_reruns"] = len(pool)
+            except Exception as ex:
+                notes.append("purity re-run failed: %s" % ex)
+            if purity_hits:
+                k, c, h, h2 = purity_hits[0]
+                broken.append("hidden state: %d of %d re-evaluated inputs gave a different result in a different evaluation order" % (len(purity_hits), len(pool)))
+                pay = dict(property=pid, kind="failing-history", source="re-evaluation in reverse order",
+                           description="the last case evaluates to %s here but to %s when evaluated in the original order: the result is not a function of the input (hidden state)" % (
+                               short(h2["r"]), short(h["r"])),
+                           cases=[dict(cc) for cc, _ in pool[:k + 1]], purity=True, expected_last=h["r"], broken=list(broken))
+                path = write_replay(pid, pay)
+                lines.append("VIOLATION property=%s replay=%s" % (pid, path))
     # ---- on how many generated inputs do the hypotheses of the binary64 theorems hold (decided inside Coq, lib/SafeDec.v)
     hyp = None
     if hb_ok and not replay and ok_make:
@@ -324,7 +362,7 @@ def check_property(prop, tier, seed, replay=None):
             len(mismatches), stats["evaluations"], d, json.dumps(strip_meta(c))[:300]))
 
     # ---- verdict
-    violations = 0
+    violations = len([l for l in lines if l.startswith("VIOLATION")])
 
     def report_hit(case, hres, desc, source):
         nonlocal violations
@@ -376,8 +414,8 @@ def check_property(prop, tier, seed, replay=None):
         violations += 1
         return True
 
-    reported = False
-    for c, h, d in oracle_hits[:50]:
+    reported = bool(purity_hits)
+    for c, h, d in ([] if purity_hits else oracle_hits[:50]):
         if report_hit(c, h, d, "oracle on generated cases"):
             reported = True
             break
